@@ -40,6 +40,18 @@ impl CommandReader {
     }
 }
 
+#[cfg(lace_verif)]
+impl CommandReader {
+    /// Verification: like [`CommandReader::from`], but the stream is always the piped-stdin
+    /// reader (whose bytes are injected with `verif::arm`), never an interactive terminal.
+    pub fn verif_piped(argument: Option<String>) -> Self {
+        Self {
+            argument: argument.map(Argument::from),
+            stream: Stream::Stdin(Stdin::from(io::stdin())),
+        }
+    }
+}
+
 impl Stream {
     pub fn new() -> Self {
         let stdin = io::stdin();
